@@ -13,6 +13,7 @@ import xmltree
 MODULE = "OpcuaModel.Props.C08"
 NS_XSD = "http://opcfoundation.org/UA/2011/03/UANodeSet.xsd"
 TYPES = xmltree.TYPES
+EXTRA_AUDIT = [("OpcuaModel.Gen.NodeIdTie", "Opcua.Tie.")]
 TRUSTED_BASE = [
     "Lean 4.33.0 kernel; axioms audited (subset of propext, Classical.choice, Quot.sound)",
     "tie (A): UANodeId.xml_encode (with UANodeId.__str__) is also regenerated from the source on every run (translator/py2lean.py) and Gen/NodeIdTie.lean proves the generated definition equal to encodeText (.nodeId n) b for every NodeId and both settings of include_xmlns (xmlEncode_eq); coverage.translator_tie says which case applied",
